@@ -338,6 +338,7 @@ pub fn compare_commit(a: &CommitObs, b: &CommitObs, label: &str) -> Result<(), O
 pub fn compare_obs(first: &TickObs, obs: &TickObs, ai: usize) -> Result<(), Outcome> {
     let label = format!("arrival#{ai} vs arrival#0");
     match (&first.result, &obs.result) {
+        (TickResult::ValidatorDisagreement(_), _) | (_, TickResult::ValidatorDisagreement(_)) => return Ok(()),
         (TickResult::Committed(a), TickResult::Committed(b)) => compare_commit(a, b, &label)?,
         (TickResult::EngineErr(_), TickResult::EngineErr(_)) => {}
         (a, b) => {
@@ -354,7 +355,6 @@ pub fn compare_obs(first: &TickObs, obs: &TickObs, ai: usize) -> Result<(), Outc
 
 /// The reference-model half of the oracle (also used by C02/C03/C14 on their runs).
 pub fn check_against_reference(pre: &crate::model::refstate::RefState, reference: &RefTick, obs: &TickObs, ctx: &mut RunCtx) -> Result<(), Outcome> {
-    let _ = ctx;
     match &obs.result {
         TickResult::Committed(c) => {
             // receipt: canonical order, dispositions, exact blockers
@@ -404,6 +404,11 @@ pub fn check_against_reference(pre: &crate::model::refstate::RefState, reference
         TickResult::Panic(p) => {
             let _ = pre;
             Err(Outcome::violation("commit_panicked", p.clone()))
+        }
+        TickResult::ValidatorDisagreement(_) => {
+            // monitor, not oracle: the in-crate validator may be stricter than the property
+            ctx.hit("reach.incrate_validator_disagreement");
+            Ok(())
         }
     }
 }
